@@ -347,10 +347,20 @@ pub fn record_panic_locations() {
         if let Ok(mut g) = LAST_PANIC_LOC.lock() {
             *g = loc;
         }
+        if let Ok(mut g) = LAST_PANIC_MSG.lock() {
+            let p = info.payload();
+            *g = p.downcast_ref::<&str>().map(|s| s.to_string()).or_else(|| p.downcast_ref::<String>().cloned()).unwrap_or_default();
+        }
         if std::env::var("NV_SHOW_PANICS").is_ok() {
             eprintln!("[panic] {}", info);
         }
     }));
+}
+
+static LAST_PANIC_MSG: std::sync::Mutex<String> = std::sync::Mutex::new(String::new());
+
+pub fn last_panic_msg() -> String {
+    LAST_PANIC_MSG.lock().map(|g| g.clone()).unwrap_or_default()
 }
 
 pub fn last_panic_loc() -> String {
